@@ -31,6 +31,7 @@ import QEProofs.Lemmas.C04Term2
 import QEProofs.Lemmas.C04Buf
 import QEProofs.Lemmas.C04MinmaxLex
 import QEProofs.Lemmas.C04Infeas
+import QEProofs.Lemmas.C04MinmaxIff
 import Mathlib.Algebra.Order.Field.Rat
 namespace QE.C04
 open QE QE.Pivot Finset
@@ -632,6 +633,45 @@ theorem minmax_guard_unique_max (A : ℕ → ℕ → K) (m n : ℕ) (hm : 1 ≤ 
     lexRowsOK (mmStart A m n) = true :=
   mmStart_lexRowsOK A m n hm hn huniq
 
+/-- **minmax_guard_iff.** The rows `minmax` hands to `solve_tableau` (after the two hand pivots,
+    `mmStartT`) are lexicographically positive **exactly when** column 0 of `A` attains its
+    maximum in a single row (`minmaxUniqueMax`, judged on `A` itself).  With a tie, the later tied
+    row has right-hand side 0 and first non-zero lexicographic entry `−1`: that is precisely the
+    case in which termination of `minmax`'s simplex run is *not* covered by
+    `minmax_value_certified` (the harness replays every such game with cycle detection). -/
+theorem minmax_guard_iff (A : ℕ → ℕ → K) (m n : ℕ) (hm : 1 ≤ m) (hn : 1 ≤ n) :
+    minmaxLexOK A m n = minmaxUniqueMax A m n :=
+  minmaxLexOK_iff A m n hm hn
+
+/-- **minmax_certified_of_unique_max.** `minmax_value_certified` with the guard stated on the
+    matrix: if `minmaxUniqueMax A m n` (executable) and `max_iter > C(n+1+m, m+1) + 3`, the
+    returned `(v, x, y)` is a saddle-point certificate, whatever status the inner run reports. -/
+theorem minmax_certified_of_unique_max (A : ℕ → ℕ → K) (m n fuel : ℕ) (hm : 1 ≤ m) (hn : 1 ≤ n)
+    (hu : minmaxUniqueMax A m n = true) (hfuel : (n + 1 + m).choose (m + 1) + 3 < fuel) :
+    let R := minmax A m n fuel (tol0 : Tol K)
+    let x := fun i => R.x.getD i 0
+    let y := fun j => R.y.getD j 0
+    ((∀ i, i < m → 0 ≤ x i) ∧ ∑ i ∈ range m, x i = 1) ∧
+    ((∀ j, j < n → 0 ≤ y j) ∧ ∑ j ∈ range n, y j = 1) ∧
+    (∀ j, j < n → R.v ≤ ∑ i ∈ range m, x i * A i j) ∧
+    (∀ i, i < m → ∑ j ∈ range n, A i j * y j ≤ R.v) ∧
+    (∃ j, j < n ∧ ∑ i ∈ range m, x i * A i j = R.v) ∧
+    (∃ i, i < m ∧ ∑ j ∈ range n, A i j * y j = R.v) := by
+  have hlex : lexRowsOK (mmStart A m n) = true := by
+    have := minmaxLexOK_iff A m n hm hn
+    rw [hu] at this
+    exact this
+  exact minmax_value_certified A m n fuel hm hn hlex hfuel
+
+omit [IsStrictOrderedRing K] in
+/-- `minmax` runs `solve_tableau` on exactly the modelled start tableau and basis -/
+theorem minmax_runs_on_start (A : ℕ → ℕ → K) (m n fuel : ℕ) (tol : Tol K) :
+    (minmax A m n fuel tol).status
+      = (solveTableau tol false (fuel - 2) (mmStartT A m n) (mmBasisT A m n)).status ∧
+    (minmax A m n fuel tol).iters
+      = (solveTableau tol false (fuel - 2) (mmStartT A m n) (mmBasisT A m n)).iters :=
+  ⟨rfl, rfl⟩
+
 /-! ## non-vacuity: concrete programs over ℚ on which the hypotheses hold -/
 
 /-- max x+y s.t. x+y ≤ 1, −x−y ≤ −2 : infeasible -/
@@ -705,5 +745,8 @@ example : lexRowsOK (mmStart exGame 2 2) = true ∧ (2 + 1 + 2).choose (2 + 1) +
 def exConstGame : ℕ → ℕ → ℚ := fnOfMat [[2, 2], [2, 2]]
 example : lexRowsOK (mmStart exConstGame 2 2) = false ∧ (minmax exConstGame 2 2 100 tol0).status = 0 ∧
     (minmax exConstGame 2 2 100 tol0).v = 2 := by decide +kernel
+
+example : minmaxUniqueMax exGame 2 2 = true ∧ minmaxLexOK exGame 2 2 = true ∧
+    minmaxUniqueMax exConstGame 2 2 = false ∧ minmaxLexOK exConstGame 2 2 = false := by decide +kernel
 
 end QE.C04
